@@ -208,7 +208,7 @@ Definition parse_ty_str (tstr : str -> option ty) (s : str) : outcome rtype :=
   end.
 
 (* ---------- IR records ---------- *)
-Record id := { original : str; renamed : str; serde_rename : bool }.
+Record id := { original : str; renamed : str; via_serde_rename : bool }.
 
 Inductive lang := Go | Kotlin | Scala | Swift | TypeScript | Python.
 Definition lang_eqb (a b : lang) : bool :=
